@@ -96,6 +96,12 @@ theorem C15_row_containers (f : OdsFeatures) (rows : List (List Str × Nat)) :
 example : odsRows (some (regroupDoc (encodeDoc { colRuns := true } [[[['a']], [['b'], ['b']], [['c']], [['d']], [['e']]]]))) 1
     = .rows [[some ['a']], [some ['b'], some ['b']], [some ['c']], [some ['d']], [some ['e']]] := by decide +kernel
 
+/-- **Covered cells.** Decoding the cells of a row does not depend on which of them are stored as cells covered by a merge
+(`table:covered-table-cell`): whatever list of cell elements a row holds, covering every second one leaves the decoded row
+unchanged - same number of cells, same texts, same repeat counts. -/
+theorem C15_covered_cells (cells : List Xml) : odsRow.cells (coverCells cells) = odsRow.cells cells :=
+  cells_coverCells cells
+
 /-- cells covered by a merge (`table:covered-table-cell`) take up their column (before the repair they were skipped and the cells
 after them moved to the left) -/
 example : odsRows (some (coverDoc (encodeDoc { colRuns := true } [[[['a'], [], ['c'], ['c']], [['x'], ['y']]]]))) 1
